@@ -35,6 +35,7 @@ TECHNIQUE += '; declaration of defined names: the argument pairs of the model (_
 LEVEL_TEXT += ' Added clause: a list name that receives nothing is [] on both back-ends.'
 TECHNIQUE += '; run-time names of generated rules are distinct (safe_name, RuleInfo.new and the @rule decorator interpreted)'
 TECHNIQUE += '; per-call state of a reused parser object: every exit of bound() restores the attributes whose per-call value is derived from their own previous value (C02.R13 = C10.R11, path-state execution)'
+TECHNIQUE += "; names declared per option of a choice in both back-ends (R9 A5); a freshly defaulted configuration is never the overriding side over the rule source's directives (R14, who-may / data-flow rule over override_config sites)"
 LEVEL_TEXT += ' Added clause: two rules never share a run-time name in generated code.'
 LEVEL_NOTE = ('Trusted: repr() escapes every non-printable character; str.splitlines() breaks at \\n \\r \\v \\f \\x1c \\x1d \\x1e \\x85 '
               '\\u2028 \\u2029; str.expandtabs() rewrites TAB.')
